@@ -387,6 +387,25 @@ func runClaimCase(seed uint64, stats map[string]int) (V, V) {
 			e1, e2, what = x, y, "absorb-separator"
 		}
 	}
+	if e2 == nil && rng.Chance(1, 8) {
+		// sign / width confusion: a negative value with a k-byte magnitude x against the positive value 2^(8k) + x
+		// (an encoding that writes "sign byte, magnitude" for one and a fixed-width word for the other may make them meet)
+		k := []int{7, 7, 7, 1, 3, 8, 15, 31}[rng.Intn(8)]
+		x := randBig(rng, pow2(8*k))
+		if x.Sign() == 0 {
+			x = big.NewInt(1)
+		}
+		x.SetBit(x, 8*k-1, 1) // a full k-byte magnitude
+		neg := new(big.Int).Neg(x)
+		pos := new(big.Int).Add(pow2(8*k), x)
+		a, b := e1.clone(), e1.clone()
+		if rng.Chance(1, 2) {
+			a.fee, b.fee = neg, pos
+		} else {
+			a.feepaid, b.feepaid = neg, pos
+		}
+		e1, e2, what = a, b, "sign-width"
+	}
 	if e2 == nil {
 		e2, what = mutate(rng, e1)
 	}
